@@ -17,12 +17,14 @@ Driver for property C09.  One scenario per line:
       -> `<fx>* | ph=<phase> fired=<results> pend=<serial[t]>* timers=<serial>* dc=<ids> reg=<proxy ids> prox=<id:alive:cbs>*`
          or `parse-err <kind>` when the address does not parse
 
-  cah <r|o> <unix 0|1> <user bytes-hex> <answer bytes-hex> <N|U|E|G|-> <step>*     C09 x C07: one connection attempt through the handshake
+  cah <r|o> <unix 0|1> <user bytes-hex> <answer bytes-hex> <N|U|E|G|-> <crash bytes-hex|-> <step>*     C09 x C07: one connection attempt through the handshake
       (Client/ConnectAuth.lean): r = repaired client.py, o = pinned; the answer to Hello is complete once the binary
       stream begins with <answer>, and is N (named) / U (no name) / E (error) / G (not a message: dataReceived raises), `-` = never;
+      after the answer binary mode raises once the binary stream begins with <crash> (`-` = never);
+      (mode `o` is validated against no tree: the harness always sends `r`)
       step = r:<bytes hex> (one read) | l (connectionLost).  Cookie environment: the keyring directory does not exist.
       -> <N|S:<hex>|C|A>* | auth=<0|1> disc=<0|1> closedAt=<step|-> firedAt=<step|-> fired=<results> ph=<phase>
-         evs=<lifecycle events generated> hello=<N|U|E|G|-> lost=<0|1> delivered=<number of reads that reached dataReceived>
+         evs=<lifecycle events generated> hello=<N|U|E|G|-> lost=<0|1> raised=<0|1> delivered=<number of reads that reached dataReceived>
 
   events: af[:refused|connectError|dnsLookup|timeout|other] ac ap ao ax hr he cl rp:<serial>:<0|1> ex:<serial> ca:<0|1>:<r> no:<r> cn:<c> pe:<key> pi:<key>
           pn:<p>:<r> pc:<p>:<c> dp:<p> cd:<serial> (the caller cancels the call's Deferred)          reactions r: n c u r p x
@@ -228,15 +230,16 @@ def optNat : Option Nat → String
 
 def line (toks : List String) : String :=
   match toks with
-  | v :: unix :: user :: n :: o :: steps =>
+  | v :: unix :: user :: n :: o :: cr :: steps =>
     match (if v == "r" then some Variant.repaired else if v == "o" then some Variant.original else none),
-          hexToBytes? user, hexToBytes? n, parseOutcome o, steps.mapM parseStep with
-    | some v, some user, some answer, some o, some steps =>
+          hexToBytes? user, hexToBytes? n, parseOutcome o, hexToBytes? cr, steps.mapM parseStep with
+    | some v, some user, some answer, some o, some cr, some steps =>
       let env : Txdbus.AuthClient.Env :=
         { user := user, dirStat := none, file := fun _ => none, rnd := [], sha1 := fun x => x, errText := errName }
       let cfg : Cfg :=
         { v := v, pref := Txdbus.Gen.ClientAuth.preference, unix := unix == "1", envAt := fun _ => env,
-          decode := fun b => if answer.isPrefixOf b then o else none }
+          decode := fun b => if answer.isPrefixOf b then o else none,
+          crash := fun b => !cr.isEmpty && cr.isPrefixOf b }
       let ep : Endpoint := { target := .unix ['/', 'x'], args := [] }
       let s0 : ConnectAuth.St := init cfg (Txdbus.Client.Lifecycle.step v (connect [ep]) .attemptConnects)
       let c0 := if s0.proto.disconnecting then some 0 else none
@@ -249,8 +252,9 @@ def line (toks : List String) : String :=
         " ph=" ++ phaseName s.life.phase ++
         " evs=" ++ (if s.evs.isEmpty then "-" else ",".intercalate (s.evs.map levStr)) ++
         " hello=" ++ outcomeStr s.hello ++ " lost=" ++ (if s.lost then "1" else "0") ++
+        " raised=" ++ (if s.raised then "1" else "0") ++
         " delivered=" ++ toString s.delivered.length
-    | _, _, _, _, _ => "bad-input"
+    | _, _, _, _, _, _ => "bad-input"
   | _ => "bad-input"
 
 end DrvCAH
